@@ -1,6 +1,46 @@
-//! C16 — stub (to be written; see /verif/harness/AUTHORING.md and DESIGN.md §3 C16)
-use vengine::Property;
+//! C16 — scalers and whiteners achieve their normalisation and act as fixed row-wise maps.
+//!
+//! Four sub-checks: `whiten` (PCA / ZCA / Cholesky on full-rank data), `linear` (standard ×4,
+//! min-max, max-abs), `norm` (L1 / L2 / Max row normalisation) and the finite enumeration `rejects`
+//! (empty training data, flipped min-max range). Every case fits on one matrix, transforms it and a
+//! second matrix, and compares against reference statistics computed in f64 by the harness' own
+//! naive code; the selection / dataset pass-through obligations are shared (`common.rs`).
+
+pub mod common;
+pub mod gens;
+pub mod linear;
+pub mod norm;
+pub mod rejects;
+pub mod whiten;
+
+use vengine::{enum_sub, prop_sub, Property, Tier};
 
 pub fn property() -> Property {
-    Property { id: "C16", rule: "", assumptions: vec![], subs: vec![] }
+    Property {
+        id: "C16",
+        rule: "case = (element type f32|f64, row- or column-major storage, transformer configuration, training matrix X (n 1..=40, p 1..=5; \
+               columns drawn per column as gaussian*scale(10^-6..10^6)+offset, small-integer grid, constant, or all-zero; all-zero and repeated rows), \
+               a second matrix Y to transform (copies of training rows, unseen rows up to ten times wider, all-zero rows, possibly empty), a row \
+               selection or permutation of Y, dataset metadata (target kind, weights, feature names, target names, view-backed records)). \
+               Whitening cases construct full-rank X = (G*d)R + mu with n >= p+2. Non-trivial = X has a constant or all-zero column or an all-zero row, \
+               or the transformed matrix is non-empty and not the training matrix (norm scaler: any non-empty matrix); every enumerated rejection case \
+               is non-trivial; distinct = distinct canonical JSON of the case",
+        assumptions: vec![
+            format!("float comparisons against the harness' f64 reference use |a-b| <= {}*eps*scale + tiny, eps = machine epsilon of the element type, scale = sum of the magnitudes entering the expression (for column statistics: input magnitude in output units + output magnitude)", common::K_TOL),
+            format!("a column whose spread (population std / range / max|.|) is positive but <= {}*eps in absolute terms falls into linfa's abs_diff_eq!(spread, 0) guard and is not judged for its normalisation post-condition (domain limit, DESIGN C16 R); exactly constant columns are judged as constant", linear::GUARD_FACTOR),
+            "constant columns: standard scaling must use scale exactly 1 (centred only), min-max must map them to the range minimum, max-abs must leave an all-zero column zero (linfa doc comments and unit tests)".into(),
+            "scales() of a fitted linear scaler must be positive (documented as the inverse of a standard deviation / range / max |.|)".into(),
+            "entries have magnitude 0 or within about 1e-12..1e12, so squares neither overflow nor underflow in f32".into(),
+            format!("whitening is judged only on training data with sample-covariance eigenvalues lambda_min > 0, sqrt((n-1) lambda_min) >= {:e} and lambda_max <= {:e} (linfa clamps singular values / inverse roots at the absolute value 1e-8; data near the clamp are a stated domain limit), and only where the covariance tolerance {}*eps*(n+p)*p*cond + 4*(32*eps*max|x|/sqrt(lambda_min))^2 is <= {:e}; other cases are counted as not judged", whiten::CLAMP_SINGULAR_MIN, whiten::CLAMP_EIGEN_MAX, whiten::K_COV, whiten::COV_TOL_MAX),
+            "row selection must commute bit-for-bit for the element-wise scalers (same arithmetic on both sides, NaNs identified); for whitening (a matrix product) within twice the dot-product tolerance".into(),
+            "an all-zero row given to the norm scaler must come back finite and, being a rescaling of the zero vector, all-zero".into(),
+            "trusted base: ndarray, vengine::num (covariance, Jacobi eigenvalues), proptest".into(),
+        ],
+        subs: vec![
+            prop_sub("whiten", 9000, 240000, |t: Tier| gens::whiten_cases(t), whiten::check),
+            prop_sub("linear", 16000, 400000, |t: Tier| gens::linear_cases(t), linear::check),
+            prop_sub("norm", 8000, 200000, |t: Tier| gens::norm_cases(t), norm::check),
+            enum_sub("rejects", |_t: Tier| rejects::cases(), rejects::check).chunks(1),
+        ],
+    }
 }
